@@ -27,6 +27,9 @@ type Case struct {
 
 var hexRE = regexp.MustCompile(`0x[0-9a-f]+`)
 
+// log-package timestamps: the message of a failing case must not depend on the clock
+var stampRE = regexp.MustCompile(`\d{4}/\d{2}/\d{2} \d{2}:\d{2}:\d{2}(\.\d+)?`)
+
 var (
 	cap_      *capture.Capture
 	caseStart atomic.Int64 // unix nanos of the running case, 0 when idle
@@ -112,7 +115,7 @@ func check(c Case) (pbt.Info, error) {
 		}
 		if now := cap_.Size(); now != sizeBefore {
 			// addresses in the text vary between runs; rapid's shrinker needs a deterministic message
-			text := hexRE.ReplaceAllString(cap_.Tail(sizeBefore), "0x?")
+			text := stampRE.ReplaceAllString(hexRE.ReplaceAllString(cap_.Tail(sizeBefore), "0x?"), "<time>")
 			return info, fmt.Errorf("%s step %d %s wrote to stdout/stderr: %q", c.Cfg.Kind, i, s.M, text)
 		}
 	}
@@ -126,10 +129,22 @@ func check(c Case) (pbt.Info, error) {
 func gen(kind string) func(t *rapid.T) Case { return genWith(kind, false) }
 
 func genWith(kind string, float bool) func(t *rapid.T) Case {
+	if float {
+		return genElem(kind, "float")
+	}
+	return genElem(kind, "")
+}
+
+// genElem: elem is "" (int), "float", "any" (an interface element type: nil,
+// pointers, errors, mixed dynamic types) or "uint8" (a named unsigned type).
+func genElem(kind, elem string) func(t *rapid.T) Case {
 	return func(t *rapid.T) Case {
 		c := Case{Cfg: refl.GenCfg(t, kind)}
-		if float {
+		switch elem {
+		case "float":
 			c.Cfg = refl.GenCfgFloat(t, kind)
+		case "any", "uint8":
+			c.Cfg = refl.GenCfgElem(t, kind, elem)
 		}
 		// every exported method, the structure-building ones listed three more times so
 		// that rarely reached shapes (deep trees, wrapped rings, long lists) are common
@@ -171,6 +186,13 @@ func TestGenerated(t *testing.T) {
 	// float64 elements (NaN, zeros, infinities) with the default constructors
 	for _, kind := range refl.Kinds {
 		pbt.Run(t, pbt.Target[Case]{Name: kind + "/float64", Checks: 500, Gen: genWith(kind, true), Check: check, Before: before(kind + "/float64")})
+	}
+	// element types the generic code could only tell apart by inspecting the type at
+	// run time: T = any (nil, pointers, errors, mixed dynamic types) and a named uint8
+	for _, elem := range []string{"any", "uint8"} {
+		for _, kind := range refl.Kinds {
+			pbt.Run(t, pbt.Target[Case]{Name: kind + "/" + elem, Checks: 300, Gen: genElem(kind, elem), Check: check, Before: before(kind + "/" + elem)})
+		}
 	}
 }
 
